@@ -53,10 +53,23 @@ def plan(seed, subbatch):
     if route != "manager" and subbatch == "faulty":
         for _ in range(op_rng.choice((0, 0, 1, 3))):
             extras.append((op_rng.random(), {"op": op_rng.choice(("purge", "recalculate", "calculate"))}))
+    # gap filling next to the conversion (not on a timeframe finer than the feed: every base interval would be a
+    # gap of thousands of buckets; the span is capped like in the other checks that fill)
+    fill = bool(tf) and tf_s >= base_s and sub_rng(seed, "fill").random() < 0.15
     pre, ops, fired, rows = planlib.stream_and_schedule(seed, subbatch, n, base_s, start, faults, burst,
                                                         p_empty, extras, preload=pre_k, regimes=regimes,
-                                                        regime_len=regime_len)
+                                                        regime_len=regime_len,
+                                                        max_span_s=(800 * tf_s if fill else None))
     fired["operator_ops"] += len(extras)
+    if sub_rng(seed, "zero-open").random() < 0.06:
+        # one candle that opens at exactly 0.0 (a legal float: its raw values must stay recoverable like any other)
+        zr = sub_rng(seed, "zero-open-at")
+        cands = [(op, j) for op in ([{"candles": pre}] + ops) for j in range(len(op.get("candles") or []))]
+        if cands:
+            op, j = zr.choice(cands)
+            r = op["candles"][j]
+            op["candles"][j] = [r[0], 0.0, r[2], 0.0, r[4], r[5]]
+            fired["candle_opening_at_zero"] += 1
     # occasionally a candle lifespan on top: conversion must still follow the recurrence over the
     # WHOLE stream, of which the retained window is a suffix
     lifespan = None
@@ -85,7 +98,7 @@ def plan(seed, subbatch):
             "config": {"route": route, "tf": tf, "base_s": base_s, "spec": spec, "lifespan_s": lifespan,
                        "shared_objects": shared, "siblings": siblings,
                        # gap filling next to the conversion: the recurrence runs over the FILLED collapsed series
-                       "fill": bool(tf) and sub_rng(seed, "fill").random() < 0.15},
+                       "fill": fill},
             "ops": [{"op": "new", "preload": pre}] + ops, "fired": dict(fired)}
 
 
